@@ -86,6 +86,23 @@ theorem c01_marshal_injective (p q : Packet) (hp : wfP p = true) (hq : wfP q = t
   have := congrArg canonP h1
   simpa [canonP, canonH_decoded] using this.symm
 
+/-- elements held while `Extension` is false do not reach the wire -/
+theorem c01_hidden_exts_ignored (p : Packet) :
+    pktMarshal p = pktMarshal (dropHidden p) ∧ pktMarshalSize p = pktMarshalSize (dropHidden p) ∧
+    hdrMarshal p.header = hdrMarshal (dropHidden p).header := by
+  unfold dropHidden
+  cases hx : p.header.extension
+  · simp [pktMarshal, pktMarshalTo, pktMarshalSize, hdrMarshal, hdrMarshalTo, hdrMarshalSize, fixedBytes, hx]
+  · simp
+
+/-- so the round trip also holds for a header with X = 0 that still carries elements (reachable by
+    clearing `Extension` after `SetExtension`): it decodes as the same packet without them -/
+theorem c01_roundtrip_hidden (p : Packet) (hwf : wfP (dropHidden p) = true) (r : Packet) :
+    ∃ bs q, pktMarshal p = .ok bs ∧ bs.length = pktMarshalSize p ∧ pktUnmarshal r bs = .ok q ∧
+      canonP q = canonP (dropHidden p) := by
+  obtain ⟨h1, h2, _⟩ := c01_hidden_exts_ignored p
+  obtain ⟨bs, q, hm, hl, hu, hc, _⟩ := c01_packet_roundtrip_spec (dropHidden p) hwf r
+  exact ⟨bs, q, by rw [h1, hm], by rw [h2, hl], hu, hc⟩
 /-! ### non-vacuity: the hypotheses hold for the boundary packets DESIGN §6 lists, and the
     round trip computes on them -/
 
